@@ -1,0 +1,152 @@
+//go:build verif
+
+// Copyright 2026 The Scriggo Authors. All rights reserved.
+// Use of this source code is governed by a BSD-style
+// license that can be found in the LICENSE file.
+
+package compiler
+
+import (
+	"fmt"
+	"math/big"
+	"reflect"
+
+	"github.com/open2b/scriggo/ast"
+)
+
+// Verification hooks for property C02 (compile-time constant arithmetic is
+// exact). Compiled only with the "verif" build tag. Add-only: every function
+// calls the real methods of int64Const and intConst and reports the result
+// together with its implementation type ("small" = int64Const, "big" =
+// intConst).
+
+var verifC02Ops = map[string]ast.OperatorType{
+	"eq": ast.OperatorEqual, "ne": ast.OperatorNotEqual, "lt": ast.OperatorLess, "le": ast.OperatorLessEqual,
+	"gt": ast.OperatorGreater, "ge": ast.OperatorGreaterEqual,
+	"add": ast.OperatorAddition, "sub": ast.OperatorSubtraction, "mul": ast.OperatorMultiplication,
+	"quo": ast.OperatorDivision, "rem": ast.OperatorModulo,
+	"and": ast.OperatorBitAnd, "or": ast.OperatorBitOr, "xor": ast.OperatorXor, "andnot": ast.OperatorAndNot,
+	"shl": ast.OperatorLeftShift, "shr": ast.OperatorRightShift,
+	"plus": ast.OperatorAddition, "neg": ast.OperatorSubtraction, "compl": ast.OperatorXor,
+}
+
+var verifC02Types = map[reflect.Kind]reflect.Type{
+	reflect.Int: reflect.TypeFor[int](), reflect.Int8: reflect.TypeFor[int8](), reflect.Int16: reflect.TypeFor[int16](),
+	reflect.Int32: reflect.TypeFor[int32](), reflect.Int64: reflect.TypeFor[int64](),
+	reflect.Uint: reflect.TypeFor[uint](), reflect.Uint8: reflect.TypeFor[uint8](), reflect.Uint16: reflect.TypeFor[uint16](),
+	reflect.Uint32: reflect.TypeFor[uint32](), reflect.Uint64: reflect.TypeFor[uint64](), reflect.Uintptr: reflect.TypeFor[uintptr](),
+}
+
+func verifC02Const(repr, dec string) (constant, error) {
+	i, ok := new(big.Int).SetString(dec, 10)
+	if !ok {
+		return nil, fmt.Errorf("bad integer %q", dec)
+	}
+	switch repr {
+	case "small":
+		if !i.IsInt64() {
+			return nil, fmt.Errorf("%s is not an int64", dec)
+		}
+		return int64Const(i.Int64()), nil
+	case "big":
+		return intConst{i: i}, nil
+	}
+	return nil, fmt.Errorf("bad representation %q", repr)
+}
+
+func verifC02Show(c constant, err error) string {
+	if err != nil {
+		return "err " + err.Error()
+	}
+	switch c := c.(type) {
+	case int64Const:
+		return "ok " + c.String() + " small"
+	case intConst:
+		return "ok " + c.String() + " big"
+	case boolConst:
+		return "ok bool " + c.String()
+	}
+	return fmt.Sprintf("other %T %v", c, c)
+}
+
+// VerifC02Binary executes c1.binaryOp(op, c2) on integer constants given as
+// (representation, decimal) pairs.
+func VerifC02Binary(op, repr1, dec1, repr2, dec2 string) (res string) {
+	defer func() {
+		if r := recover(); r != nil {
+			res = fmt.Sprint("panic ", r)
+		}
+	}()
+	c1, err := verifC02Const(repr1, dec1)
+	if err != nil {
+		return "bad " + err.Error()
+	}
+	c2, err := verifC02Const(repr2, dec2)
+	if err != nil {
+		return "bad " + err.Error()
+	}
+	o, ok := verifC02Ops[op]
+	if !ok {
+		return "bad operator"
+	}
+	return verifC02Show(c1.binaryOp(o, c2))
+}
+
+// VerifC02Unary executes c.unaryOp(op, typ) where typ has the given kind.
+func VerifC02Unary(op string, kind reflect.Kind, repr, dec string) (res string) {
+	defer func() {
+		if r := recover(); r != nil {
+			res = fmt.Sprint("panic ", r)
+		}
+	}()
+	c, err := verifC02Const(repr, dec)
+	if err != nil {
+		return "bad " + err.Error()
+	}
+	o, ok := verifC02Ops[op]
+	t, ok2 := verifC02Types[kind]
+	if !ok || !ok2 {
+		return "bad operator or kind"
+	}
+	return verifC02Show(c.unaryOp(o, t))
+}
+
+// VerifC02RepresentedBy executes c.representedBy(typ) where typ has the given
+// kind.
+func VerifC02RepresentedBy(kind reflect.Kind, repr, dec string) (res string) {
+	defer func() {
+		if r := recover(); r != nil {
+			res = fmt.Sprint("panic ", r)
+		}
+	}()
+	c, err := verifC02Const(repr, dec)
+	if err != nil {
+		return "bad " + err.Error()
+	}
+	t, ok := verifC02Types[kind]
+	if !ok {
+		return "bad kind"
+	}
+	return verifC02Show(c.representedBy(t))
+}
+
+// VerifC02ShiftConstError executes shiftConstError(op, c).
+func VerifC02ShiftConstError(left bool, repr, dec string) (res string) {
+	defer func() {
+		if r := recover(); r != nil {
+			res = fmt.Sprint("panic ", r)
+		}
+	}()
+	c, err := verifC02Const(repr, dec)
+	if err != nil {
+		return "bad " + err.Error()
+	}
+	op := ast.OperatorRightShift
+	if left {
+		op = ast.OperatorLeftShift
+	}
+	if err := shiftConstError(op, c); err != nil {
+		return "err " + err.Error()
+	}
+	return "ok"
+}
